@@ -24,6 +24,24 @@ struct HashModel : Model {
     }
 };
 
+// pairs of distinct keys with the same full 32-bit hash, found once per process by a birthday search with the library's own
+// hash function (nothing hard-coded: if the hash changes the pairs change with it)
+static const std::vector<std::pair<Bytes, Bytes>> &collision_pairs() {
+    static std::vector<std::pair<Bytes, Bytes>> pairs;
+    static bool done = false;
+    if (done) return pairs;
+    done = true;
+    std::map<uint32_t, uint32_t> seen;
+    for (uint32_t i = 0; i < 400000 && pairs.size() < 6; i++) {
+        char b[16]; int n = snprintf(b, sizeof b, "c%u", i);
+        uint32_t hsh = qhashmurmur3_32(b, (size_t)n);
+        auto it = seen.find(hsh);
+        if (it != seen.end()) { char o[16]; snprintf(o, sizeof o, "c%u", it->second); pairs.push_back({Bytes(o), Bytes(b)}); }
+        else seen[hsh] = i;
+    }
+    return pairs;
+}
+
 struct HashWorld : World {
     std::vector<Bytes> keys;   // C strings without the terminator
     int U = 0; long range = 0; bool threadsafe = false, mt = false;
@@ -41,6 +59,7 @@ struct HashWorld : World {
         c.set("ts", (mtm || mode == "lockbal") ? 1 : (r.chance(1, 5) ? 1 : 0));
         c.set("mt", mtm ? 1 : 0);
         c.set("nops", r.range(5, r.chance(1, 4) ? 300 : 60));
+        c.set("fullcoll", r.chance(1, 4) ? 1 : 0);      // universe contains two keys whose full 32-bit hashes are equal
         (void)prop;
     }
     Op gen_op(Rng &r, const std::string &prop, const std::string &mode, GenState &) override {
@@ -70,6 +89,11 @@ struct HashWorld : World {
         cfg = c; U = (int)c.get("U"); range = c.get("range"); threadsafe = c.get("ts") != 0; mt = c.get("mt") != 0;
         Rng r((uint64_t)c.get("useed") * 104729 + 5);
         std::set<Bytes> seen; keys.clear();
+        if (c.get("fullcoll") && U >= 2 && !collision_pairs().empty()) {
+            auto &pr = collision_pairs()[r.below((uint32_t)collision_pairs().size())];
+            keys.push_back(pr.first); keys.push_back(pr.second); seen.insert(pr.first); seen.insert(pr.second);
+            if (r.chance(1, 2)) std::swap(keys[0], keys[1]);
+        }
         while ((int)keys.size() < U) {
             Bytes k; int len = r.range(1, 6);
             for (int i = 0; i < len; i++) k += "abcXYZ019_-\x80\xfe"[r.below(13)];
@@ -87,6 +111,7 @@ struct HashWorld : World {
     bool sut_create(Ctx &x) override {
         { InSut s; t = qhashtbl((size_t)range, threadsafe ? QHASHTBL_THREADSAFE : 0); }
         if (t) x.st.add(range == 1 ? "cfg.range1" : range <= 3 ? "cfg.range2_3" : "cfg.range_big");
+        if (t && cfg.get("fullcoll")) x.st.add("probe.universe_has_full_hash_collision");
         return t != nullptr;
     }
     void sut_destroy(Ctx &) override { if (t) { InSut s; t->free(t); } t = nullptr; }
